@@ -430,4 +430,31 @@ def allowed_spin_blocks(expr: Expr, target_idx: str) -> tuple[str]:''')]),
          new="            elif len(obj.idx) == 2 and tensor_names.fock == name:\n                return tuple(sp + sp for sp in (\"b\", \"a\"))"),
     dict(id="c15-ok-number-term-unwrapped-temp", prop="C15", file=S, expect=None,
          old="            result += term.sympy\n            continue", new="            number = term.sympy\n            result = result + number\n            continue"),
+    # ------------------------------------------------------------------ F53: sums inside products (R15i)
+    dict(id="c15-F53-revert", prop="C15", file=S, expect=["R15i", "R15f"],
+         old="    expr = Expr(expr.sympy.expand(), **expr.assumptions)\n", new=""),
+    # expands only a copy that is never used: the loop still runs over the unexpanded terms
+    dict(id="c15-F53-expanded-copy-unused", prop="C15", file=S, expect=["R15i", "R15f"],
+         old="    expr = Expr(expr.sympy.expand(), **expr.assumptions)\n",
+         new="    expanded = Expr(expr.sympy.expand(), **expr.assumptions)\n"),
+    # expands the caller's container in place
+    dict(id="c15-F53-expand-in-place", prop="C15", file=S, expect="R15i",
+         old="    expr = Expr(expr.sympy.expand(), **expr.assumptions)\n", new="    expr = expr.expand()\n"),
+    dict(id="c15-ok-F53-expand-on-copy", prop="C15", file=S, expect=None,
+         old="    expr = Expr(expr.sympy.expand(), **expr.assumptions)\n", new="    expr = expr.copy().expand()\n"),
+    dict(id="c15-ok-F53-expand-temporaries", prop="C15", file=S, expect=None,
+         old="    expr = Expr(expr.sympy.expand(), **expr.assumptions)\n",
+         new="    options = expr.assumptions\n    flat_sum = expr.sympy.expand()\n    expr = Expr(flat_sum, **options)\n"),
+    dict(id="c15-ok-F53-expand-term-by-term", prop="C15", file=S, expect=None,
+         edits=[("    expr = Expr(expr.sympy.expand(), **expr.assumptions)\n", ""),
+                ("    for term in expr.terms:\n        # - ensure that the term has matching target indices",
+                 "    for term in (t for unexpanded in expr.terms\n                 for t in unexpanded.expand().terms):\n"
+                 "        # - ensure that the term has matching target indices")]),
+    dict(id="c15-ok-F53-expand-term-sympy", prop="C15", file=S, expect=None,
+         edits=[("    expr = Expr(expr.sympy.expand(), **expr.assumptions)\n", ""),
+                ("    for term in expr.terms:\n        # - ensure that the term has matching target indices",
+                 "    expanded_terms = []\n    for unexpanded in expr.terms:\n"
+                 "        expanded_terms.extend(\n            Expr(unexpanded.sympy.expand(), **expr.assumptions).terms\n        )\n"
+                 "    for term in expanded_terms:\n"
+                 "        # - ensure that the term has matching target indices")]),
 ]
